@@ -275,7 +275,9 @@ impl InnerInMemory {
         loop {
             let Some(rrset) = self.inner_lookup(&wildcard, record_type, lookup_options) else {
                 let parent = wildcard.base_name();
-                if parent.is_root() {
+                // RFC 4592 section 3.3.1: only `*.<closest encloser>` is a source of synthesis,
+                // so the search ends at the first ancestor that exists
+                if parent.is_root() || self.name_exists(&parent) {
                     return None;
                 }
 
